@@ -41,6 +41,15 @@ CLAIMS = {
         note='Frank solver (least_squares, quad) and scipy kendalltau are external hypotheses, cross-checked every run; '
              'Frank near tau=0 is a recorded finding',
         tech='Lean 4 proof over generated calibrations + hand model of fit with correspondence', ref='5 C10'),
+    'C18': dict(
+        text='Lean 4 theorems about faithful models of bisect and chandrupatla (any number of lanes, any maxiter): bisect '
+             'bracket/sign/width invariant, result within tol/2 of a root of a continuous function (IVT), lane independence, '
+             'rejection of invalid brackets; chandrupatla sign-bracket invariant, evaluation points clipped into the bracket, '
+             'exact zero when flagged by fm == 0, scalar = one-element vector, lane independence; tied bit-for-bit to the real '
+             'functions on a shared function-spec language (results, iteration counts, mutated caller arrays).',
+        note='convergence of chandrupatla within the iteration cap is partial (no proved rate); reversed brackets accepted by '
+             'chandrupatla is a recorded finding; exp-based families compared within tolerance',
+        tech='Lean 4 proof over a hand-written model + bit-exact correspondence on a shared spec language', ref='5 C18'),
 }
 
 
